@@ -271,6 +271,10 @@ func judge(prop string, s HarnessSpec, r *HarnessResult, known []KnownFinding) *
 			} else {
 				v.incon = append(v.incon, fmt.Sprintf("reachability witness %q is %s (vacuous harness?)", o.ID, o.Result))
 			}
+		case o.Class == "batch":
+			if o.Result == "unsat" {
+				v.passed += r.NBatched
+			}
 		case o.Result == "unsat":
 			v.passed++
 		case o.Result == "sat":
@@ -341,9 +345,16 @@ func writeEvidence(prop, tier string, seed int, vs []*verdict, wall time.Duratio
 			"loop_unwind": orDefault(v.spec.Unwind, 16), "max_moves": orDefault(v.spec.Steps, 64), "moves_used": r.NSteps, "schedule": map[bool]string{true: "solver variable per step", false: "first enabled move (harness is schedule-independent by construction)"}[v.spec.Symbolic],
 			"inputs": r.Inputs})
 		for _, o := range r.Obs {
-			nobl++
-			if (o.Class == "cover" && o.Result == "sat") || (o.Class != "cover" && o.Result == "unsat") {
-				ndis++
+			if o.Class == "batch" {
+				nobl += r.NBatched
+				if o.Result == "unsat" {
+					ndis += r.NBatched
+				}
+			} else {
+				nobl++
+				if (o.Class == "cover" && o.Result == "sat") || (o.Class != "cover" && o.Result == "unsat") {
+					ndis++
+				}
 			}
 			if o.Class == "cover" && o.Result == "sat" {
 				traces++
